@@ -57,6 +57,16 @@ Cases == {[cmd |-> c.cmd, src |-> c.src, ins |-> c.ins, pres |-> "", env |-> ""]
          \cup {[cmd |-> "parse", src |-> s, ins |-> <<a>>, pres |-> p, env |-> ""] : s \in Sources, a \in Classes, p \in Presentations}
          \cup {[cmd |-> c, src |-> "files", ins |-> f, pres |-> "", env |-> e] : c \in {"format-inplace", "lint-fix", "format-output"}, f \in FileSets, e \in Environments}
 
+\* "already formatted" relates a text to what format prints for it: equality up to the final newlines, nothing else.
+\* The driver decorates the printed text of accepted inputs with each of these and requires of the real binary what the
+\* three operators say: --check fails and -i rewrites exactly when the decoration is more than final newlines, and
+\* what -i leaves on disk is always what format prints.
+Decorations == {"none", "final-newlines", "leading-blank-lines", "leading-indent", "trailing-blanks", "trailing-blank-line", "crlf", "both-ends"}
+SameAsOutput(d) == d \in {"none", "final-newlines"}
+CheckExit(d) == IF SameAsOutput(d) THEN 0 ELSE 1
+InplaceRewrites(d) == ~SameAsOutput(d)
+ASSUME \A d \in Decorations : (CheckExit(d) = 0) <=> ~InplaceRewrites(d)
+
 VARIABLES case, verdict, done
 vars == <<case, verdict, done>>
 
